@@ -86,6 +86,23 @@ func r16_1(c *Ctx, rule string) {
 		}
 	}
 	// liveness: a selected entry does reach the writers
+	// both matchers see every entry: a directory that the include patterns do
+	// not match is still descended, and its children need the exclude state of
+	// their parent (the matcher falls back to a different algorithm without it)
+	{
+		ik, _, _ := c.errValueOf(f.inc)
+		ok, hit, und := c.Precedes(f.copy, f.inc, map[string]bool{"(" + ik + "==nil)": true},
+			func(in ssa.Instruction) bool { return in == ssa.Instruction(f.exc) },
+			func(in ssa.Instruction) bool { return in == ssa.Instruction(f.cdCall) || c.P.IsCallTo(in, "copy.copyFile") })
+		switch {
+		case und:
+			c.R.Undecided(rule, c.name(f.copy)+"/exclude-evaluated-for-every-entry", c.pos(f.exc), "state limit")
+		case !ok:
+			c.R.Fail(rule, c.name(f.copy)+"/exclude-evaluated-for-every-entry", c.pos(hit.Instr), "an entry can be processed (its directory descended) without the exclude matcher having been consulted for it: its children inherit an empty exclude state and are matched by the fallback algorithm, which decides some pattern lists differently")
+		default:
+			c.R.OK(rule, c.name(f.copy)+"/exclude-evaluated-for-every-entry", c.pos(f.exc), "the exclude matcher is consulted for every entry, whatever the include verdict")
+		}
+	}
 	c.ObReachable(rule, c.name(f.copy)+"/selected-is-written", f.copy, map[string]bool{c.reg(f.inc) + "#0": true, c.reg(f.exc) + "#0": false}, c.callPred("copy.copyFile"), "copyFile", "the entry is selected")
 	// copyDirectory with include=false
 	var incParam *ssa.Parameter
